@@ -21,7 +21,7 @@ def obligations():
                     unwindset=['harness:%d' % max(ml + 1, 49), 'opus_packet_parse_impl:%d' % ub, 'rfc_parse:%d' % ub, 'opus_repacketizer_cat_impl:%d' % ub],
                     functions=['opus_repacketizer_cat_impl', 'opus_packet_parse_impl'], tier=tier, budget=900,
                     bounds='one cat from any valid state holding 0..3 frames; any packet of 0..%d bytes, code %d%s, both framings' % (ml, code, (', <=%d frames' % cm) if code == 3 else '')))
-    for ln, xp, tier in ((3, 3, 'quick'), (4, 2, 'quick'), (5, 3, 'thorough'), (6, 4, 'thorough')):
+    for ln, xp, tier in ((3, 3, 'quick'), (4, 2, 'thorough'), (5, 3, 'thorough'), (6, 4, 'thorough')):
         for unpad_only in (0, 1):
             L.append(Ob('H3.%s.len%d.xp%d' % ('unpad' if unpad_only else 'pad_unpad', ln, xp), 'C07_pad.c', ['src/repacketizer.c', 'src/opus.c', 'src/opus_decoder.c'],
                         ['-DLEN=%d' % ln, '-DCMAX=%d' % ln, '-DXP=%d' % (0 if unpad_only else xp)] + (['-DUNPAD_ONLY'] if unpad_only else []), unwind=1,
@@ -30,7 +30,7 @@ def obligations():
                         memwords=3, functions=['opus_packet_unpad', 'opus_repacketizer_out_range_impl'] + ([] if unpad_only else ['opus_packet_pad_impl']),
                         tier=tier, budget=(900 if tier == 'quick' else 1500), witness=(ln >= 4 or not unpad_only),
                         bounds='any packet of exactly %d bytes with at most that many frames%s; new_len = len..len+%d' % (ln, '' if unpad_only else ' without a padding flag', 0 if unpad_only else xp)))
-    for ln, cm, xp, tier in ((5, 2, 2, 'quick'), (6, 2, 2, 'quick'), (7, 3, 3, 'thorough'), (8, 3, 3, 'thorough')):
+    for ln, cm, xp, tier in ((5, 2, 2, 'quick'), (6, 2, 2, 'thorough'), (7, 3, 3, 'thorough'), (8, 3, 3, 'thorough')):
         for unpad_only in (0, 1):
             L.append(Ob('H4.multistream_%s.len%d' % ('unpad' if unpad_only else 'pad_unpad', ln), 'C07_mspad.c', ['src/repacketizer.c', 'src/opus.c', 'src/opus_decoder.c'],
                         ['-DLEN=%d' % ln, '-DCMAX=%d' % cm, '-DXP=%d' % (0 if unpad_only else xp)] + (['-DUNPAD_ONLY'] if unpad_only else []), unwind=1,
